@@ -23,8 +23,9 @@ import itertools
 import random
 import thermosteam as tmo
 from thermosteam import equilibrium as eq
-from engine.api import group
+from engine.api import group, CheckAbort
 from engine.sx import tmo_world as W
+from engine.sx import sym as _sym
 
 PH = ('s', 'l', 'g', 'S', 'L')
 IDS = ('Water', 'Ethanol')
@@ -73,6 +74,7 @@ def sources(tier, multi_only=False, small=False):
         for p in PH:
             out.append(_src('S', p, p, p))        # Water > 0, Ethanol maybe
             out.append(_src('S', p, '', p))       # empty or Ethanol only
+            out.append(_src('S', p, '', ''))      # empty
     subs = _subsets(2)
     if small:
         subs = ['lg', 'lL', 'sl', 'gL', 'slg', 'lgL', 'slgSL']
@@ -87,6 +89,7 @@ def sources(tier, multi_only=False, small=False):
             out.append(_src('M', ph, ph, ph[-1]))             # every row non-empty
             out.append(_src('M', ph, ph[0], ph[-1]))          # first row non-empty, last maybe
             out.append(_src('M', ph, '', ph[0]))              # empty or one row
+            if len(ph) == 2: out.append(_src('M', ph, '', ''))    # empty
             if len(ph) > 2:
                 out.append(_src('M', ph, ph[1:], ph[0]))      # all but the first, first maybe
     if tier == 'thorough' and not multi_only and not small:
@@ -198,6 +201,23 @@ def _view_reads(w, tag, st, post, fresh=()):
                            v.phase == p))
 
 
+_ENGINE_EXC = (_sym.EngineUnsupported, _sym.EngineNondeterminism, _sym.PathCap, _sym.Infeasible, CheckAbort)
+
+
+def _call(w, tag, fn, allowed=()):
+    """Run the real operation; an exception the contract does not allow is the failed clause '<step>: no exception'."""
+    try:
+        return fn()
+    except _ENGINE_EXC:
+        raise
+    except allowed:
+        raise
+    except Exception as e:
+        if isinstance(e, TypeError) and 'SymReal' in str(e): raise
+        w.ensure(f'{tag}: no exception', w.And(False), exception=f'{type(e).__name__}: {e}'[:200])
+        raise CheckAbort()
+
+
 def _step(w, st, i, op, must_apply=False):
     """Execute one operation on the real stream and state its contract.  Returns False if skipped."""
     s = st.s
@@ -227,7 +247,7 @@ def _step(w, st, i, op, must_apply=False):
             if arg not in phases or arg in ne or len(phases) < 2: return skip()
             target = tuple(p for p in phases if p != arg)
         if not _covers(target, ne): return skip()
-        s.phases = target
+        _call(w, tag, lambda: setattr(s, 'phases', target))
         post = _obs(s)
         w.ensure(f'{tag}: phases are the requested set', w.And(post['phases'] == _ptuple(target)), got=post['phases'])
         _class_clause(w, tag, post, len(set(target)) == 1)
@@ -236,7 +256,7 @@ def _step(w, st, i, op, must_apply=False):
         _view_reads(w, tag, st, post)
     elif kind == 'single':
         if not _covers((arg,), ne): return skip()
-        s.phase = arg
+        _call(w, tag, lambda: setattr(s, 'phase', arg))
         post = _obs(s)
         w.ensure(f'{tag}: phases are the requested set', w.And(post['phases'] == (arg,)), got=post['phases'])
         _class_clause(w, tag, post, True)
@@ -246,7 +266,7 @@ def _step(w, st, i, op, must_apply=False):
     elif kind == 'as_stream':
         groups = {p.lower() for p in ne}
         try:
-            s.as_stream()
+            _call(w, tag, s.as_stream, allowed=RuntimeError)
         except RuntimeError:
             post = _obs(s)
             w.ensure(f'{tag}: refuses only when several phases are non-empty', w.And(len(groups) > 1), nonempty=ne)
@@ -259,7 +279,7 @@ def _step(w, st, i, op, must_apply=False):
             _rows_clauses(w, tag, st, flows, post)
         _common_clauses(w, tag, st, post, pre['T'], pre['P'])
     elif kind == 'reduce':
-        s.reduce_phases()
+        _call(w, tag, s.reduce_phases)
         post = _obs(s)
         dests = [_dest(p, post['phases']) for p in ne]
         w.ensure(f'{tag}: distinct non-empty phases are not merged', w.And(len(set(dests)) == len(ne)),
@@ -277,7 +297,7 @@ def _step(w, st, i, op, must_apply=False):
     elif kind in ('vle', 'lle', 'sle'):
         need, cls = {'vle': ('g', 'l'), 'lle': ('L', 'l'), 'sle': ('l', 's')}[kind], \
                     {'vle': eq.VLE, 'lle': eq.LLE, 'sle': eq.SLE}[kind]
-        solver = getattr(s, kind)
+        solver = _call(w, tag, lambda: getattr(s, kind))
         post = _obs(s)
         w.ensure(f'{tag}: phase set extended by the solver phases',
                  w.And(all(p in post['phases'] for p in need)), phases=post['phases'])
@@ -345,7 +365,7 @@ def _step(w, st, i, op, must_apply=False):
     elif kind == 'restore':
         if st.saved is None: return skip()
         sv = st.saved
-        s.set_data(sv['data'])
+        _call(w, tag, lambda: s.set_data(sv['data']))
         st.T, st.P = sv['obs']['T'], sv['obs']['P']
         st.total = dict(sv['total'])
         post = _obs(s)
@@ -422,7 +442,8 @@ def set_configs(tier):
         else:
             cand = [ph, ''.join(PH), ''.join(sorted(ne)), ''.join(sorted({p.lower() for p in ne})),
                     ''.join(sorted({_swap(p) for p in ne})), ''.join(sorted(ne | {'g'})),
-                    ''.join(sorted({p.lower() for p in ne} | {'S'})), ''.join(sorted({_swap(p) for p in ne} | {'l'}))]
+                    ''.join(sorted({p.lower() for p in ne} | {'S'})), ''.join(sorted({_swap(p) for p in ne} | {'l'})),
+                    'lL', 'lg', 'sl', 'gSL', 'l', 'S']
             targets = []
             for t in cand:
                 if t and _covers(t, ne) and t not in targets: targets.append(t)
